@@ -96,3 +96,65 @@ Definition run_from_hex (inp : list Z) : list Z :=
 (* arbitrary integer list -> from_bytes *)
 Definition run_dec (inp : list Z) : list Z := out_res out_msg (dec inp).
 Definition run_dec_unfixed (inp : list Z) : list Z := out_res out_msg (dec_unfixed inp).
+
+(* ---- components of C04 / C05 / C06: parser ---- *)
+Require Import Mido.Model.Tokenizer Mido.Model.Parser.
+
+Definition run_parse (inp : list Z) : list Z := out_res out_msgs (parse_all inp).
+Definition run_tokens (inp : list Z) : list Z := zlen (tokens inp) :: flat_map out_list (tokens inp).
+
+Definition out_obs (o : pobs) : list Z :=
+  match o with
+  | ONone => [0]
+  | OGet None => [1; 0]
+  | OGet (Some m) => 1 :: 1 :: out_msg m
+  | ONum n => [2; n]
+  | OMsgs ms => 3 :: out_msgs ms
+  | OErr e => [4; exn_code e]
+  end.
+
+Fixpoint in_pops (fuel : nat) (l : list Z) : option (list pop) :=
+  match fuel with
+  | O => match l with [] => Some [] | _ => None end
+  | S f =>
+    match l with
+    | [] => Some []
+    | k :: r =>
+      if k =? 0 then match in_list r with
+                     | Some (bs, r') => option_map (cons (PFeed bs)) (in_pops f r')
+                     | None => None end
+      else if k =? 1 then match r with b :: r' => option_map (cons (PFeedByte b)) (in_pops f r') | [] => None end
+      else if k =? 2 then option_map (cons PGet) (in_pops f r)
+      else if k =? 3 then option_map (cons PPending) (in_pops f r)
+      else if k =? 4 then option_map (cons PIterAll) (in_pops f r)
+      else if k =? 5 then match r with n :: r' => option_map (cons (PIterTake (Z.to_nat n))) (in_pops f r') | [] => None end
+      else None
+    end
+  end.
+Definition run_parser_ops (inp : list Z) : list Z :=
+  match in_pops (length inp) inp with
+  | Some ops => let '(s, obs) := p_run p_init ops in flat_map out_obs obs ++ [-9] ++ out_msgs (p_q s)
+  | None => bad_input
+  end.
+
+Fixpoint in_qops (fuel : nat) (l : list Z) : option (list qop) :=
+  match fuel with
+  | O => match l with [] => Some [] | _ => None end
+  | S f =>
+    match l with
+    | [] => Some []
+    | k :: r =>
+      if k =? 0 then match in_list r with
+                     | Some (bs, r') => option_map (cons (QPutBytes bs)) (in_qops f r')
+                     | None => None end
+      else if k =? 1 then match in_msg r with Some (m, r') => option_map (cons (QPut m)) (in_qops f r') | None => None end
+      else if k =? 2 then option_map (cons QPoll) (in_qops f r)
+      else if k =? 3 then option_map (cons QIterPoll) (in_qops f r)
+      else None
+    end
+  end.
+Definition run_pqueue_ops (inp : list Z) : list Z :=
+  match in_qops (length inp) inp with
+  | Some ops => let '(s, obs) := q_run {| q_tok := Idle; q_q := [] |} ops in flat_map out_obs obs ++ [-9] ++ out_msgs (q_q s)
+  | None => bad_input
+  end.
